@@ -79,6 +79,11 @@ inductive Ev where
   | headers (p : Nat) (hs : List Nat)
   | cfWrite (stop n : Nat) (prevOk : Bool)
   | backlog (h : Nat)
+  /-- a `headers` message whose batch write (`WriteHeaders` after the loop) FAILS -/
+  | headersFailWrite (p : Nat) (hs : List Nat)
+  /-- headers (and `nf` filter headers) imported into the stores underneath the block manager,
+  followed by `ResetHeaderState` -/
+  | importReset (blocks : List Nat) (nf : Nat)
 deriving Repr
 
 inductive Res where
@@ -392,6 +397,36 @@ def backlog (s : State) (h : Nat) : Out :=
 def cfProbe (tipFirst : Bool) (s : State) (stop n h : Nat) : Out :=
   if tipFirst then backlog (cfWrite s stop n true).1 h else backlog s h
 
+/-! ### a failed batch write; an import underneath followed by `ResetHeaderState` -/
+
+/-- `b` is a proper extension of `a` -/
+def properExt (a b : List Nat) : Bool := decide (a.length < b.length) && b.take a.length == a
+
+/-- `handleHeadersMsg` when the batch write after the loop fails: the error is logged, the list is
+re-anchored on the stored tip, and the handler returns - nothing is stored, `nextCheckpoint` and
+the tips stay as they were (the peer heights noted during the loop stay).  The write in question
+is the one a run that only extends the stored chain ends with; on any other run (early return,
+checkpoint rollback, reorganisation) the model lets the message through unchanged - the driver
+injects the failure only into batches that extend the stored tip. -/
+def handleHeadersFailWrite (c : Cfg) (s : State) (p : Nat) (hs : List Nat) : State × List Ntfn :=
+  let r := handleHeaders c s p hs
+  if properExt s.log r.1.log then ({ s with peers := r.1.peers, hl := anchor s.log }, []) else r
+
+/-- what the importer checks before it writes: each header names the then-tip, is valid, and is
+the checkpoint wherever there is one -/
+def chainOk (c : Cfg) : List Nat → List Nat → Bool
+  | _, [] => true
+  | log, b :: bs =>
+    (c.tbl.parent b == some (tipId log)) && c.tbl.valid b &&
+    c.cps.all (fun cp => cp.height != log.length || cp.id == b) && chainOk c (log ++ [b]) bs
+
+/-- import + `ResetHeaderState`: every in-memory field is re-read from the stores -/
+def importReset (c : Cfg) (s : State) (blocks : List Nat) (nf : Nat) : State :=
+  let log := if chainOk c s.log blocks then s.log ++ blocks else s.log
+  let fst := if s.fst + nf ≤ tipHeight log then s.fst + nf else s.fst
+  { s with log := log, fst := fst, ncp := findNextCp c.cps (tipHeight log), hl := anchor log,
+           htip := ⟨tipId log, tipHeight log⟩, ftip := ⟨log.getD fst 0, fst⟩ }
+
 /-! ### the machine -/
 
 def step (c : Cfg) (s : State) : Ev → State × Out
@@ -402,6 +437,8 @@ def step (c : Cfg) (s : State) : Ev → State × Out
   | .headers p hs => let (s', ntf) := handleHeaders c s p hs; (s', { ntf := ntf })
   | .cfWrite stop n ok => cfWrite s stop n ok
   | .backlog h => (s, backlog s h)
+  | .headersFailWrite p hs => let (s', ntf) := handleHeadersFailWrite c s p hs; (s', { ntf := ntf })
+  | .importReset blocks nf => (importReset c s blocks nf, {})
 
 def init (c : Cfg) (peers : List Peer) : State :=
   { peers := peers, ncp := findNextCp c.cps 0 }
